@@ -50,6 +50,7 @@ def psm_frame(
     id_prefix="",
     twin=False,
     colliding_keys=False,
+    near_keys=False,
     flag_feature=False,
     crossed_levels=False,
     targets_first=False,
@@ -91,6 +92,12 @@ def psm_frame(
                 scan[b] = scan[a] * 10 + d
                 if key_arity == 3:
                     fname[b] = fname[a]
+    if near_keys and key_arity >= 2 and nspec >= 4:
+        # pairs of distinct spectra that agree on every key column except the measured mass, which differs in the 6th decimal
+        for a in range(1, nspec - 2, 4):
+            b = a + 2
+            scan[b], fname[b], rt[b] = scan[a], fname[a], rt[a]
+            expmass[b] = float(expmass[a]) + 3e-6
     is_target = rng.random(n) < 0.5
     # guarantee both classes
     if n >= 2:
